@@ -328,3 +328,10 @@ def run(ctx: core.Ctx) -> None:
                               "with_vaporised_oil": n_rv, "queries": sum(len(c["r"]["q"]) for c in cases)}
     replay_cases(ctx, cases)
     realistic(ctx, terms, 40 if ctx.quick else 400)
+
+    # per-call statement of the property under concurrent use (Reentrant.tla): the same calls from several threads at once
+    from ..drivers import threads  # noqa: PLC0415
+
+    threads.clause(ctx, ['multiphase'])
+
+
